@@ -4,7 +4,7 @@ from evalutil import *
 
 ID = "C11"
 LEVEL = "proof"
-MODULES = ["H3Proofs.Props.C11", "H3Proofs.Props.C11Res0"]
+MODULES = ["H3Proofs.Props.C11", "H3Proofs.Props.C11Res0", "H3Proofs.Props.C11Pent"]
 THEOREMS = "auto"
 ASSUMPTIONS = ["model of vertexRotations / vertexNumForDirection / directionForVertexNum / cellToVertex(es) / "
                "isValidVertex with regenerated tables, tied by exact correspondence",
